@@ -5,7 +5,7 @@ that a property's rc harness fails within its quick budget.
 usage: tools/senscheck.py Cxx [cases]   reads tools/mutations/Cxx.json:
   [{"name": "...", "file": "src/x.cpp", "old": "...", "new": "..."}, ...]
 """
-import json, os, shutil, subprocess, sys
+import json, os, re, shutil, subprocess, sys
 
 ROOT = os.path.dirname(os.path.dirname(os.path.abspath(__file__)))
 pid = sys.argv[1]
@@ -51,6 +51,15 @@ try:
             if d and d.get('failed'):
                 res = 'DETECTED after %d cases: %s' % (d['evaluations'], d['signature'])
                 desc = d.get('fail_desc', '')[:300]
+                # keep the shrunk tape as a regression input if it passes on the real tree
+                tape = d.get('fail_tape')
+                good_bin = os.path.join(ROOT, 'build', 'bin', pid + '_rc')
+                if tape and os.path.exists(tape) and os.path.exists(good_bin):
+                    slug = re.sub(r'[^a-z0-9]+', '-', m['name'].lower()).strip('-')[:60]
+                    rp = subprocess.run([good_bin, '--replay', tape, '--faildir', scratch], env=env, stdout=subprocess.PIPE, stderr=subprocess.DEVNULL, text=True, errors='replace')
+                    if 'RESULT pass' in rp.stdout:
+                        os.makedirs(os.path.join(ROOT, 'replays', pid), exist_ok=True)
+                        shutil.copy(tape, os.path.join(ROOT, 'replays', pid, 'mut-' + slug + '.tape'))
             elif p.returncode not in (0,):
                 tail = p.stdout[-600:]
                 res = 'DETECTED (crash/abort rc=%d)' % p.returncode
